@@ -52,6 +52,7 @@ func cmdLTS(args []string) {
 	walks := fs.Int("walks", 1000, "random walks")
 	wlen := fs.Int("len", 30, "length of random walks")
 	variant := fs.String("variant", "", "subject variant")
+	nocover := fs.Bool("nocover", false, "skip the per-transition pass (graphs with outcomes the code never takes)")
 	fs.Parse(args[2:])
 	name, file := args[0], args[1]
 	s, ok := subj.LTSSubjects(*variant)[name]
@@ -65,7 +66,9 @@ func cmdLTS(args []string) {
 		os.Exit(2)
 	}
 	r := lts.NewRunner(g, s)
-	r.CoverEdges()
+	if !*nocover {
+		r.CoverEdges()
+	}
 	r.AllPaths(*depth, *budget)
 	r.RandomWalks(rand.New(rand.NewSource(seed())), *walks, *wlen)
 	st := r.Finish()
@@ -79,5 +82,6 @@ func cmdLTS(args []string) {
 	}
 	st.Violations = nil
 	emit("REPORT", map[string]any{"engine": "lts", "subject": name, "variant": *variant, "states": st.States, "edges": st.Edges, "edges_covered": st.EdgesCovered,
-		"calls_total": st.OpKeysTotal, "calls_executed": st.OpKeysDone, "paths": st.Paths, "steps": st.Steps})
+		"calls_total": st.OpKeysTotal, "calls_executed": st.OpKeysDone, "paths": st.Paths, "steps": st.Steps,
+		"legal_deviations": st.Deviations, "model_drift": st.Drift, "drift_sample": st.DriftSample})
 }
